@@ -8,6 +8,8 @@ for d in sorted(glob.glob(os.path.join(os.path.dirname(__file__), '..', 'seeded'
     if not os.path.exists(mp):
         continue
     m = json.load(open(mp))
+    if m.get('retired'):
+        continue
     c = m.get('confirmed_by_verif', {})
 
     def cut(s, n):
